@@ -197,6 +197,9 @@ func (r *Reader) parseColorSpaceAt(obj core.Object, depth int) string {
 	return "DeviceGray"
 }
 
+// maxImagePixels is the largest JPEG ToPNG decodes: 64 megapixels (8000 x 8000).
+const maxImagePixels = 1 << 26
+
 // ToPNG converts the decoded pixel data to PNG format.
 // This is suitable for use with OCR engines like Tesseract.
 func (img *PageImage) ToPNG() ([]byte, error) {
@@ -205,12 +208,34 @@ func (img *PageImage) ToPNG() ([]byte, error) {
 
 	// Check if the data is still JPEG-encoded (DCTDecode returns raw JPEG)
 	if len(img.Data) >= 2 && img.Data[0] == 0xFF && img.Data[1] == 0xD8 {
+		// The decoder allocates the image its frame header announces before it has
+		// seen any of it: a 35-byte JPEG announcing 65535 x 65535 pixels asked for
+		// 12 GiB. Look at the header first.
+		cfg, cfgErr := jpeg.DecodeConfig(bytes.NewReader(img.Data))
+		if cfgErr != nil {
+			return nil, fmt.Errorf("failed to decode JPEG: %w", cfgErr)
+		}
+		if cfg.Width <= 0 || cfg.Height <= 0 || cfg.Width > maxImagePixels/cfg.Height {
+			return nil, fmt.Errorf("JPEG of %d x %d pixels is too large", cfg.Width, cfg.Height)
+		}
+
 		// Decode JPEG data
 		goImg, err = jpeg.Decode(bytes.NewReader(img.Data))
 		if err != nil {
 			return nil, fmt.Errorf("failed to decode JPEG: %w", err)
 		}
 	} else {
+		// /Width and /Height come from the image dictionary as they are. Every
+		// pixel takes at least one bit of data, so an image cannot have more
+		// pixels than its data has bits; checking that here, before anything is
+		// allocated, bounds the allocations below by the size of the data.
+		// (Width -4 sliced the data with a negative bound, 100000 x 100000 over
+		// four bytes of data allocated 9 GiB, 2^40 x 2^40 panicked in image.NewGray.)
+		bits := int64(len(img.Data)) * 8
+		if img.Width <= 0 || img.Height <= 0 || int64(img.Width) > bits || int64(img.Height) > bits/int64(img.Width) {
+			return nil, fmt.Errorf("image of %d x %d pixels does not fit its %d bytes of data", img.Width, img.Height, len(img.Data))
+		}
+
 		// Handle raw pixel data based on color space
 		switch img.ColorSpace {
 		case "DeviceGray", "CalGray", "ICCBased":
